@@ -56,7 +56,19 @@ pub fn pipe() -> Result<(File, File)> {
             fcntl(fd, F_SETFD, Some(FD_CLOEXEC))?;
         }
     }
-    Ok(unsafe { (File::from_raw_fd(fds[0]), File::from_raw_fd(fds[1])) })
+    let (r, w) = unsafe { (File::from_raw_fd(fds[0]), File::from_raw_fd(fds[1])) };
+    Ok((above_std(r)?, above_std(w)?))
+}
+
+// In a process that runs with a standard descriptor closed, a new pipe lands
+// on 0-2 - exactly where the child's own standard streams get installed.
+// Keep the library's pipes clear of those numbers.
+fn above_std(f: File) -> Result<File> {
+    if f.as_raw_fd() > 2 {
+        return Ok(f);
+    }
+    let fd = fcntl(f.as_raw_fd(), F_DUPFD_CLOEXEC, Some(3))?;
+    Ok(unsafe { File::from_raw_fd(fd) })
 }
 
 // marked unsafe because the child must not allocate before exec-ing
@@ -312,6 +324,7 @@ pub fn kill(pid: u32, signal: i32) -> Result<()> {
 
 pub const F_GETFD: i32 = libc::F_GETFD;
 pub const F_SETFD: i32 = libc::F_SETFD;
+pub const F_DUPFD_CLOEXEC: i32 = libc::F_DUPFD_CLOEXEC;
 pub const FD_CLOEXEC: i32 = libc::FD_CLOEXEC;
 
 pub fn fcntl(fd: i32, cmd: i32, arg1: Option<i32>) -> Result<i32> {
